@@ -640,11 +640,20 @@ static void sdo_prehash(int phase)
         memcpy(SdoSave.sdo, Node.Sdo, sizeof SdoSave.sdo); memcpy(SdoSave.buf, SdoBuf, sizeof SdoBuf);
         for (int k = 0; k < 7; k++) SdoSave.off[k] = *offs[k];
         for (int n = 0; n < CO_SSDO_N; n++) {
-            CO_SDO *s = &Node.Sdo[n];
-            if (SM[n].st != S_IDLE || s->Obj != 0 || s->Blk.State != BLK_IDLE) continue;
-            s->Idx = 0; s->Sub = 0; s->Abort = 0; s->Buf.Num = 0; s->Buf.Cur = s->Buf.Start;
-            memset(&s->Seg, 0, sizeof s->Seg); memset(&s->Blk, 0, sizeof s->Blk); s->Blk.State = BLK_IDLE;
-            memset(SdoBuf + (size_t)n * CO_SDO_BUF_BYTE, 0, CO_SDO_BUF_BYTE);
+            CO_SDO *s = &Node.Sdo[n]; int st = SM[n].st;
+            int seg = (st == S_SEGDL || st == S_SEGUL), blk = (st == S_BLKDL || st == S_BLKDL_END || st == S_BLKUL_INIT || st == S_BLKUL || st == S_BLKUL_END);
+            if (st == S_UNSPEC) continue;
+            if (st == S_IDLE && (s->Obj != 0 || s->Blk.State != BLK_IDLE)) continue;       /* model and implementation disagree about idleness: keep everything */
+            s->Abort = 0;
+            if (st == S_IDLE) { s->Idx = 0; s->Sub = 0; }
+            if (!seg) memset(&s->Seg, 0, sizeof s->Seg);
+            if (!blk) { CO_SDO_BLK_STATE keep = s->Blk.State; memset(&s->Blk, 0, sizeof s->Blk); s->Blk.State = keep; }
+            if (st == S_BLKDL || st == S_BLKDL_END) {                                       /* the buffer holds unflushed segments: content up to the fill level is live */
+                if (s->Buf.Num < CO_SDO_BUF_BYTE) memset(SdoBuf + (size_t)n * CO_SDO_BUF_BYTE + s->Buf.Num, 0, CO_SDO_BUF_BYTE - s->Buf.Num);
+            } else {
+                s->Buf.Num = 0; s->Buf.Cur = s->Buf.Start;
+                memset(SdoBuf + (size_t)n * CO_SDO_BUF_BYTE, 0, CO_SDO_BUF_BYTE);
+            }
         }
         for (int k = 0; k < 7; k++) {
             int used = 0;
